@@ -17,7 +17,8 @@ RULE_TEXT = ("C14-W compile-fail witnesses: colliding declaration pairs produced
              "declaration whose own expansions overlap. C14-S structural rules on the macro crate: insert_at writes a leaf "
              "slot only where it was None and returns Err of the matching kind where occupied, slot choice follows "
              "is_query; insert hands every expanded path to insert_at and returns its result; interface consumes the "
-             "result by unwrap/expect/?/match; children are keyed by the whole part.")
+             "result by unwrap/expect/?/match; children are keyed by the whole part."
+             " C14-T/C14-D: on every witness interface each declared spelling reaches its own handler and the dispatcher has one arm with a distinct key per declaration (rules C01-T/D) - no declaration is shadowed by a colliding id.")
 
 INSERT_AT = "microscpi_macros::tree::Tree::insert_at"
 INSERT = "microscpi_macros::tree::Tree::insert"
@@ -100,6 +101,10 @@ def run(ck):
     ck.trust("rustc (compile outcome)", "the oracle in witness/specs.py")
     ck.assume("collisions outside the generated families are covered by the structural rules C14-S only")
     rule_S(ck)
+    # "a declaration is never silently shadowed by another": on every witness interface each declared spelling reaches
+    # its own handler - distinct match keys, one arm per declaration (the dispatcher rules C01-T/D)
+    import c01
+    c01.rule_T(ck, T="C14-T", D="C14-D")
     n = 200 if ck.tier == "thorough" else 30
     cases = hand_cases() + generated_pairs(ck.seed, n)
     specs = []
